@@ -103,6 +103,53 @@ def extract(repo):
         T["xargs_status"] = [arms[k] for k in order]
     except Exception:
         miss.append("xargs_status")
+    # ---- the primaries of build_matcher_tree: names, operand count, kind (0 test/option, 1 action, 2 -quit, 3 -prune)
+    try:
+        src = rd("src/find/matchers/mod.rs")
+        i = src.index("let possible_submatcher = match args[i] {")
+        body = src[i:]
+        arms = re.split(r'\n(?=            (?:"[^\n]*=>|_ =>))', body)
+        # matcher types whose has_side_effects() returns true
+        action_types = set()
+        mdir = os.path.join(repo, "src/find/matchers")
+        for fn in os.listdir(mdir):
+            if not fn.endswith(".rs"):
+                continue
+            txt = open(os.path.join(mdir, fn)).read()
+            for m in re.finditer(r"impl Matcher for (\w+) \{", txt):
+                blk = func_body(txt[m.start():], "impl Matcher for " + m.group(1))
+                if blk and re.search(r"fn has_side_effects\(&self\) -> bool \{\s*true\s*\}", blk):
+                    action_types.add(m.group(1))
+        specials = {"-not", "!", "-and", "-a", "-or", "-o", ",", "(", ")", "-exec", "-execdir", "-help", "--help", "-version", "--version"}
+        prims, found_special, exec_action = [], set(), 0
+        for k_arm in range(1, len(arms)):
+            a = arms[k_arm]
+            m = re.match(r'\s*((?:"[^"]*"\s*\|?\s*)+)=>', a)
+            if not m:
+                continue
+            if arms[k_arm - 1].rstrip().endswith("#[cfg(not(unix))]"):
+                continue            # the variant for other platforms
+            names = re.findall(r'"([^"]*)"', m.group(1))
+            g = re.search(r"i >= args\.len\(\) - (\d+)", a) or re.search(r"i \+ (\d+) >= args\.len\(\)", a)
+            ar = int(g.group(1)) if g else 0
+            arm_body = a[m.end():]
+            # only up to the end of this arm (the last arm is followed by the rest of the function)
+            types = set(re.findall(r"\b([A-Z]\w+)(?:::new|\.into_box|\s*\{)", arm_body[:3000]))
+            kind = 2 if "QuitMatcher" in arm_body[:400] else 3 if "PruneMatcher" in arm_body[:400] else 1 if types & action_types else 0
+            for n in names:
+                if n in specials:
+                    found_special.add(n)
+                    if n == "-exec":
+                        exec_action = 1 if {"SingleExecMatcher", "MultiExecMatcher"} <= action_types else 0
+                else:
+                    prims.append((n, ar, kind))
+        T["primaries"] = sorted(prims)
+        T["specials"] = sorted(found_special)
+        T["exec_action"] = exec_action
+        if len(prims) < 40:
+            raise ValueError
+    except Exception:
+        miss.append("primaries")
     return T, miss
 
 
@@ -123,6 +170,12 @@ def render(T):
     out.append("Definition printf_directives : list (nat * nat) := [" + "; ".join("(%d, %d)" % kv for kv in T["printf_directives"]) + "].")
     out.append("(* xargs_main: Success Failure UrgentlyFailed Killed CannotRun NotFound Unknown *)")
     out.append("Definition xargs_status : list N := [" + "; ".join("%d%%N" % v for v in T["xargs_status"]) + "].")
+    out.append("(* build_matcher_tree: primary name -> (number of operands, kind: 0 test/option, 1 action, 2 -quit, 3 -prune) *)")
+    out.append("Definition primaries : list (list nat * (nat * nat)) := [\n  " +
+               ";\n  ".join("(%s, (%d, %d))" % (coq_str(n), a, k) for n, a, k in T["primaries"]) + "].")
+    out.append("(* tokens handled structurally by the parser: operators, parentheses, -exec/-execdir, -help/-version *)")
+    out.append("Definition special_names : list (list nat) := [" + "; ".join(coq_str(n) for n in T["specials"]) + "].")
+    out.append("Definition exec_is_action : bool := %s." % ("true" if T["exec_action"] else "false"))
     return "\n".join(out) + "\n"
 
 
